@@ -1561,9 +1561,7 @@ class DynamicBase(BaseSpaceImpl):
 
     def on_namespace_change(self):
         ItemSpaceParent.on_namespace_change(self)
-        # Use dict instead of list to avoid duplicates
-        for r in {s.rootspace: True for s in self._dynamic_subs}:
-            r.del_all_itemspaces()
+        self.clear_subs_rootitems()
 
     def change_dynsub_refs(self, name):
 
@@ -1890,6 +1888,7 @@ class UserSpaceImpl(*_user_space_impl_base):
     def on_del_cells(self, name):
         cells = self.cells[name]
         self.model.clear_obj(cells)
+        self.clear_subs_rootitems()
         self.cells.del_item(name)
         cells.on_delete()
 
@@ -1946,6 +1945,7 @@ class UserSpaceImpl(*_user_space_impl_base):
         return ref
 
     def on_del_ref(self, name):
+        self.clear_subs_rootitems()
         self.own_refs[name].on_delete()
         self.own_refs.del_item(name)
 
